@@ -162,10 +162,18 @@ func runCSR(r *runner, a []int) {
 		t.Attributes = []pkix.AttributeTypeAndValueSET{nonExt, extReq(sanAttr)}
 	}
 
+	// The critical flag of an ExtraExtension is part of what was supplied. One
+	// exception: when template.Attributes (deprecated) already carries an
+	// extensionRequest attribute, the extensions are merged into that caller-built
+	// []AttributeTypeAndValue, a type with no field for the flag (crypto/x509 has
+	// the same limitation): kept or dropped are both accepted there and counted.
+	critStrict := len(attrExts) == 0
+	critSupplied := false
 	wantExts := append([]xext(nil), attrExts...)
 	for _, e := range extras {
 		if countExt(attrExts, e.id) == 0 {
-			wantExts = append(wantExts, xext{e.id, false, e.val})
+			wantExts = append(wantExts, xext{e.id, e.crit, e.val})
+			critSupplied = critSupplied || e.crit
 		}
 	}
 	// effective SAN source
@@ -275,6 +283,18 @@ func runCSR(r *runner, a []int) {
 	if g, w := canonExts(got, false), canonExts(wantExts, false); g != w {
 		r.viol("parsed extensions differ from the supplied ExtraExtensions/Attributes (override rules of the ExtraExtensions doc)",
 			fmt.Sprintf("got [%s] want [%s]", g, w))
+	} else if g, w := canonExts(got, true), canonExts(wantExts, true); g != w {
+		if critStrict {
+			r.viol("parsed extensions lost or gained the Critical flag of the supplied ExtraExtensions", fmt.Sprintf("got [%s] want [%s]", g, w))
+		} else {
+			r.out("critical ExtraExtension merged into a caller-supplied extensionRequest attribute: flag dropped (AttributeTypeAndValue cannot carry it)")
+		}
+	} else if critSupplied {
+		if critStrict {
+			r.out("critical ExtraExtension: flag round-trips")
+		} else {
+			r.out("critical ExtraExtension merged into a caller-supplied extensionRequest attribute: flag kept")
+		}
 	}
 
 	// ---- self-verification (zcrypto API) ----
@@ -317,6 +337,8 @@ func runCSR(r *runner, a []int) {
 	}
 	if g, w := canonExts(sgot, false), canonExts(wantExts, false); g != w {
 		r.viol("crypto/x509 reads different extensions from the created request", fmt.Sprintf("got [%s] want [%s]", g, w))
+	} else if g, w := canonExts(sgot, true), canonExts(wantExts, true); g != w && critStrict {
+		r.viol("crypto/x509 reads another Critical flag than the supplied ExtraExtensions carry", fmt.Sprintf("got [%s] want [%s]", g, w))
 	}
 	if err := sp.CheckSignature(); err != nil {
 		var insecure stdx509.InsecureAlgorithmError
